@@ -62,7 +62,10 @@ Atoms == { A1, Rel(<<Step("child", T_name("", <<"t","e","x","t">>))>>), Abs(<<>>
            Call(<<"c","o","u","n","t">>, <<A1>>), Rel(<<StepP("child", T_any, <<IntE(1)>>), Step("attribute", T_name("", <<"a">>))>>),
            Rel(<<Self>>), Rel(<<Step("parent", T_node)>>), Rel(<<Step("descendant", T_text)>>), Rel(<<Step("child", T_name("p", <<"a">>))>>),
            Rel(<<Step("child", T_nsany("p")), FnStep(Call(<<"n","a","m","e">>, <<>>))>>), Filter(Var("", <<"v">>), <<IntE(1)>>, <<Step("child", T_any)>>),
-           Rel(<<Step("child", T_pit(<<"t">>))>>), Rel(<<Step("self", T_name("", <<"c","h","i","l","d">>))>>) }
+           Rel(<<Step("child", T_pit(<<"t">>))>>), Rel(<<Step("self", T_name("", <<"c","h","i","l","d">>))>>),
+           \* abbreviations equal their expansions also where it matters: a//b[p] is a/descendant-or-self::node()/child::b[p]
+           Abs(<<Step("child", T_any), DoS, StepP("child", T_any, <<IntE(1)>>)>>), Rel(<<Self, DoS, StepP("child", T_any, <<Call(<<"l","a","s","t">>, <<>>)>>)>>),
+           Abs(<<DoS, StepP("child", T_any, <<IntE(2)>>)>>), Rel(<<Step("parent", T_node), StepP("attribute", T_any, <<IntE(1)>>)>>) }
 BinOps == {"or", "and", "eq", "ne", "lt", "le", "gt", "ge", "add", "sub", "mul", "div", "mod", "union"}
 UnionOK(e) == e.op \in {"path", "filter", "var", "call", "union"}
 Depth1 == Atoms \cup {NegE(x) : x \in Atoms} \cup {Bin(o, x, y) : o \in BinOps, x \in {A1, IntE(1), Var("", <<"v">>)}, y \in {A1, IntE(1), Var("", <<"v">>)}}
